@@ -144,6 +144,11 @@ class Tokenizer:
                 else:
                     self._with_macro = False
                     break
+            elif tok.type == Token.ENDMARKER:
+                # end of input also ends the block: hand the ENDMARKER back to the parser
+                self._stack.append(tok)
+                self._with_macro = False
+                break
             elif tok.type == Token.NEWLINE:
                 if not is_indented:
                     break
